@@ -308,8 +308,8 @@ def s4(chk: Check, proj: Project, w) -> None:
     chk.ob("S4", "dependencies:_CONTENT_TYPES-vs-_cache_script", dm.loc(cs), kinds == accepted and bool(kinds), f"content types {sorted(kinds)} = kinds accepted by _cache_script {sorted(accepted)}")
 
 
-def s5(chk: Check, proj: Project, w) -> None:
-    chk.rule("S5", "every decision to emit or to cache a component script tests Component.js / .css with the same predicate (is_nonempty_str)")
+def s5(chk: Check, proj: Project, w, rule: str = "S5") -> None:
+    chk.rule(rule, "every decision to emit or to cache a component script tests Component.js / .css with the same predicate (is_nonempty_str)")
     dm = proj.mod("dependencies")
     n = 0
     for fn in ("_prepare_tags_and_urls", "cache_component_js", "cache_component_css", "cache_component_js_vars", "cache_component_css_vars"):
@@ -322,8 +322,8 @@ def s5(chk: Check, proj: Project, w) -> None:
                 for a in sorted(attrs):
                     n += 1
                     ok = f"is_nonempty_str({a})" in norm(t)
-                    chk.ob("S5", f"dependencies:{fn}:{short(t, 60)}", dm.loc(st), ok, f"decision on `{a}` uses is_nonempty_str" if ok else f"`{short(t)}` decides on `{a}` by plain truthiness while the other side uses is_nonempty_str: a whitespace-only script is announced but never cached (404), or cached but never announced")
-    chk.floor("S5", n, 8)
+                    chk.ob(rule, f"dependencies:{fn}:{short(t, 60)}", dm.loc(st), ok, f"decision on `{a}` uses is_nonempty_str" if ok else f"`{short(t)}` decides on `{a}` by plain truthiness while the other side uses is_nonempty_str: a whitespace-only script is announced but never cached (404), or cached but never announced")
+    chk.floor(rule, n, 8)
 
 
 MANIFEST = {
